@@ -327,18 +327,19 @@ Theorem run_cmd_spec cs st c :
   | Err _ => match c with
              | CStoryline t => wf_story (defined (st_specs st)) (acts_of t) = false
              | CEdit f => wf_story (defined (st_specs st)) (acts_of (f (print_story (st_story st)))) = false
-             | CEntails _ (TActor a) _ => existsb (fun e => bytes_eqb (fst e) a) cs = false
+             | CEntails _ (TActor a) _ => existsb (fun e => bytes_eqb (fst e) a) (cs ++ st_more st) = false
              | _ => False
              end
   | _ => False
   end.
 Proof.
-  intros Hwf Hdom. destruct c as [ch t acts | ch m | ch m | text | f]; cbn [run_cmd].
+  intros Hwf Hdom. destruct c as [more | ch t acts | ch m | ch m | text | f]; cbn [run_cmd].
+  - repeat split; [exact Hwf | constructor | auto].
   - destruct t as [a | r]; cbn [select_actors].
-    + destruct (existsb (fun e => bytes_eqb (fst e) a) cs) eqn:E; [|reflexivity].
+    + destruct (existsb (fun e => bytes_eqb (fst e) a) (cs ++ st_more st)) eqn:E; [|reflexivity].
       cbn. repeat split; [|constructor|intros x; apply defined_upd_mono].
       unfold st_wf in *. cbn. eapply wf_story_mono; [|exact Hwf]. intros x. apply defined_upd_mono.
-    + destruct (map fst (filter (fun e => bytes_eqb (snd e) r) cs)) as [|a l].
+    + destruct (map fst (filter (fun e => bytes_eqb (snd e) r) (cs ++ st_more st))) as [|a l].
       * repeat split; [exact Hwf | constructor | auto].
       * repeat split; [|constructor|intros x; apply defined_upd_mono].
         unfold st_wf in *. cbn. eapply wf_story_mono; [|exact Hwf]. intros x. apply defined_upd_mono.
@@ -393,7 +394,7 @@ Proof.
     assert (H := run_cmd_spec cs st c Hwf Hc).
     destruct (run_cmd cs st c) as [st1 | e | |] eqn:E; cbn in Hrun; try discriminate.
     destruct H as (Hwf1 & Hstep & _).
-    destruct c as [ch t acts | ch m | ch m | text | f]; cbn in Hne; try discriminate;
+    destruct c as [more | ch t acts | ch m | ch m | text | f]; cbn in Hne; try discriminate;
       cbn [den_story_from]; rewrite (IH st1 st' Hwf1 Htl Hne Hrun); inversion Hstep; subst; try reflexivity.
     match goal with H : map columns _ = union_story _ _ |- _ => rewrite H end. reflexivity.
 Qed.
